@@ -221,12 +221,12 @@ def gen(seed, tier):
             for k in (1, 1000, 2002, 4000):
                 cases.append(case((t0 - k) % (1 << 32), walk(r, 40, [10, 11, 12], N[:3], 0, wclaim=1)))
     # --- small universes, dump after every message (precise check of the updated flag)
-    for i in range(220 if not thorough else 3000):
-        srcs = r.choice([[10, 11, 12], [0, 1, 2, 3], [0, 5, 252, 253], [3, 4, 5, 254, 255, 6], [40, 30, 50], [0, 253]])
+    for i in range(400 if not thorough else 4000):
+        srcs = r.choice([[10, 11, 12], [0, 1, 2, 3], [0, 1, 2], [0, 5, 252, 253], [3, 4, 5, 254, 255, 6], [40, 30, 50], [0, 253]])
         names = r.choice([N[:3], [0] + N[:2], [0, 0, 5, ALL1], N[:5], [0x1234, 0x1235]])
         cases.append(case(r.choice(T0S + [r.randrange(1 << 32)]), walk(r, r.choice([6, 12, 25]), srcs, names, 1, wclaim=r.choice([2, 3, 5]))))
     # --- longer histories, sparse dumps, big configuration strings
-    for i in range(60 if not thorough else 800):
+    for i in range(90 if not thorough else 900):
         srcs = r.sample(range(0, 254), r.choice([3, 6, 12])) + [r.choice([254, 255])]
         names = [0] + [r.choice(N) ^ r.randrange(1 << 20) for _ in range(r.choice([2, 5, 10]))]
         cases.append(case(r.choice(T0S + [r.randrange(1 << 32)]), walk(r, r.choice([40, 80, 150]), srcs, names, r.choice([0, 7, 20]), big=True)))
